@@ -677,9 +677,19 @@ type pairSpec struct {
 	Model   int      `json:"m"`
 	History []string `json:"h"`
 	A, B    string   // stimuli
+	Sab     string   `json:"sab"` // where the system comes to rest when A is applied and handled completely, then B
+	Sba     string   `json:"sba"` // and the other way round (each computed in an execution of its own)
 }
 
-const specFile = "/var/tmp/verif-c03-pairs.json"
+// the pair specifications are handed to the worker processes through a file of this run (name in the environment)
+var specFile = func() string {
+	if f := os.Getenv("VERIF_C03_SPECS"); f != "" {
+		return f
+	}
+	f := fmt.Sprintf("/var/tmp/verif-c03-pairs.%d.json", os.Getpid())
+	os.Setenv("VERIF_C03_SPECS", f)
+	return f
+}()
 
 func stimuli(w *world) []string {
 	var out []string
@@ -746,7 +756,83 @@ func (w *world) fire(ev string) {
 	}
 }
 
-func pairBody(c cfg, hist []string, a, b string) func() {
+// settle runs a world to rest under the default schedule: deliver everything, let timers expire, a patient user.
+func (w *world) settle(check bool) string {
+	for round := 0; round < 60; round++ {
+		progressed := false
+		for _, e := range []*end{w.cli, w.srv} {
+			for w.deliverable(e) {
+				if e == w.cli {
+					w.apply("D:c2s")
+				} else {
+					w.apply("D:s2c")
+				}
+				progressed = true
+			}
+		}
+		if ts := w.timers(); len(ts) > 0 && !progressed {
+			w.apply("T0")
+			progressed = true
+		}
+		if check {
+			w.safety("settle")
+		}
+		cl := w.class()
+		if cl == "both-complete" || cl == "both-ended" {
+			break
+		}
+		if !progressed {
+			break
+		}
+	}
+	return w.class()
+}
+
+// serialOutcome: the class the system comes to rest in when x is applied and handled completely, then y (if y is a
+// timer that x stopped or replaced it does not fire). Runs on a world of its own, under the default schedule.
+func serialOutcome(c cfg, hist []string, x, y string) string {
+	w := newWorld(c)
+	w.srv.C.Run()
+	w.cli.C.Run()
+	simrt.Quiesce()
+	for _, ev := range hist {
+		w.apply(ev)
+	}
+	// identify the timers before x runs (the ids are the same in every execution that replays this history)
+	id := func(ev string) int {
+		if strings.HasPrefix(ev, "T") {
+			var k int
+			fmt.Sscanf(ev[1:], "%d", &k)
+			if ts := w.timers(); k < len(ts) {
+				return ts[k].ID
+			}
+		}
+		return -1
+	}
+	xid, yid := id(x), id(y)
+	dbg := os.Getenv("VERIF_DEBUG") == x+"|"+y
+	fire := func(ev string, tid int) {
+		if dbg {
+			fmt.Printf("DEBUG serial %s|%s: fire %s at %v class %s timers %v\n", x, y, ev, simrt.Elapsed(), w.class(), w.timers())
+		}
+		if strings.HasPrefix(ev, "T") {
+			// a timer that was stopped or replaced meanwhile does not fire (its goroutine would find itself stale)
+			for _, t := range w.timers() {
+				if t.ID == tid && !t.stale {
+					simrt.FireTimer(tid)
+				}
+			}
+		} else {
+			simrt.Go("stim-serial", func() { w.fire(ev) })
+		}
+		simrt.Quiesce()
+	}
+	fire(x, xid)
+	fire(y, yid)
+	return w.settle(false)
+}
+
+func pairBody(c cfg, hist []string, a, b, sab, sba string) func() {
 	return func() {
 		w := newWorld(c)
 		w.srv.C.Run()
@@ -757,44 +843,35 @@ func pairBody(c cfg, hist []string, a, b string) func() {
 		}
 		simrt.Mark()
 		w.concurrent = true
-		// the timer ids have to be resolved before either stimulus runs
-		ta, tb := a, b
-		simrt.Go("stim-a", func() { w.fire(ta) })
-		simrt.Go("stim-b", func() { w.fire(tb) })
+		// the timers are identified before either stimulus runs (an index means another timer once the list has changed)
+		resolve := func(ev string) func() {
+			if strings.HasPrefix(ev, "T") {
+				var k int
+				fmt.Sscanf(ev[1:], "%d", &k)
+				if ts := w.timers(); k < len(ts) {
+					id := ts[k].ID
+					return func() { simrt.FireTimer(id) }
+				}
+				return func() {}
+			}
+			return func() { w.fire(ev) }
+		}
+		fa, fb := resolve(a), resolve(b)
+		simrt.Go("stim-a", fa)
+		simrt.Go("stim-b", fb)
 		simrt.Quiesce()
 		simrt.Unmark()
 		w.safety(a + "||" + b)
-		// settle under the default schedule: deliver everything, let timers expire, a patient user
-		for round := 0; round < 60; round++ {
-			progressed := false
-			for _, e := range []*end{w.cli, w.srv} {
-				for w.deliverable(e) {
-					if e == w.cli {
-						w.apply("D:c2s")
-					} else {
-						w.apply("D:s2c")
-					}
-					progressed = true
-				}
-			}
-			if ts := w.timers(); len(ts) > 0 && !progressed {
-				w.apply("T0")
-				progressed = true
-			}
-			w.safety("settle")
-			cl := w.class()
-			if cl == "both-complete" || cl == "both-ended" {
-				break
-			}
-			if !progressed {
-				break
-			}
-		}
+		w.settle(true)
 		cl := w.class()
 		resolved := cl == "both-complete" || cl == "both-ended"
 		waitingForUser := (c.trust == "approve" || c.trust == "cancel" || c.trust == "never") && !w.approved && !w.cancelled && c.srvAllow
 		if !resolved && !waitingForUser {
 			simrt.Fail("C03|pair-unresolved|"+cl, "after %s and %s hit the endpoints concurrently (history %v) the two sides never agree: %s", a, b, hist, cl)
+		}
+		// the inputs of an endpoint are handled one at a time: the concurrent pair has to end like one of its two orders
+		if sab == sba && (sab == "both-complete" || sab == "both-ended") && cl != sab {
+			simrt.Fail("C03|pair-not-serialisable|"+sab+"->"+cl, "%s and %s hit the endpoints concurrently (history %v): applied one after the other, in either order, the system comes to rest in %s, applied at the same time in %s", a, b, hist, sab, cl)
 		}
 		simrt.Outcome(cl)
 	}
@@ -806,7 +883,7 @@ func pairScenariosFromSpecs(cfgs []cfg, specs []pairSpec, pb int) []hx.Scenario 
 	for i, sp := range specs {
 		c := cfgs[sp.Model]
 		out = append(out, hx.Scenario{Name: fmt.Sprintf("c03:pair:%d:%s:%s||%s@%s", i, c.name(), sp.A, sp.B, strings.Join(sp.History, ",")),
-			Body: pairBody(c, sp.History, sp.A, sp.B), Bounds: simrt.B(pb, 0, 0),
+			Body: pairBody(c, sp.History, sp.A, sp.B, sp.Sab, sp.Sba), Bounds: simrt.B(pb, 0, 0),
 			Cfg: simrt.Config{MaxSteps: 200000, BranchAfterMark: true, BranchOnly: focus}})
 	}
 	return out
@@ -854,7 +931,10 @@ func buildPairSpecs(r *hx.Run, cfgs []cfg, sum *hx.GSummary, ms []hx.GModel) []p
 		})
 		for i := 0; i < len(st); i++ {
 			for j := i + 1; j < len(st); j++ {
-				specs = append(specs, pairSpec{Model: mi, History: hist, A: st[i], B: st[j]})
+				sp := pairSpec{Model: mi, History: hist, A: st[i], B: st[j]}
+				simrt.Run(simrt.Config{}, nil, func() { sp.Sab = serialOutcome(c, hist, sp.A, sp.B) })
+				simrt.Run(simrt.Config{}, nil, func() { sp.Sba = serialOutcome(c, hist, sp.B, sp.A) })
+				specs = append(specs, sp)
 			}
 		}
 	}
